@@ -115,13 +115,13 @@ def name_tree(rng, shape, fancy=False):
         return (me, tuple(rec(k) for k in t[1]))
     return rec(shape)
 
-def rand_tree(rng, nleaves=None, maxleaves=8, fancy=False):
+def rand_tree(rng, nleaves=None, maxleaves=8, fancy=False, cat=0.08):
     if nleaves is None:
         nleaves = rng.randint(2, maxleaves)
     r = rng.random()
-    if r < 0.08 and nleaves >= 3:
+    if r < cat and nleaves >= 3:
         shape = caterpillar(nleaves)
-    elif r < 0.16 and nleaves >= 3:
+    elif r < cat + 0.08 and nleaves >= 3:
         shape = star(nleaves)
     else:
         shape = rand_shape(rng, nleaves)
@@ -140,9 +140,21 @@ class Ids:
         self.n = 0
         self.int_ids = int_ids
         self.h = 0
-    def gene(self):
+        self.last = None
+        self.used = set()
+    def gene(self, rng=None):
         self.n += 1
-        return str(self.n) if self.int_ids else 'g%d' % self.n
+        if self.int_ids:
+            # integer-looking ids in several spellings: "7" and "07" are different ids
+            if rng is not None and self.last and rng.random() < 0.15:
+                g = '0' + self.last
+                if g not in self.used:
+                    self.used.add(g); self.last = g
+                    return g
+            g = str(self.n)
+            self.used.add(g); self.last = g
+            return g
+        return 'g%d' % self.n
     def hog(self):
         self.h += 1
         return 'S%d' % self.h
@@ -152,7 +164,7 @@ def gen_lineage(rng, T, p, ids, P):
     node = sub(T, p)
     if not node[1]:
         loft = ('HOG:%d.%s' % (rng.randint(1, 9), rng.choice('abc'))) if rng.random() < P['loft'] else None
-        return ('g', ids.gene(), loft)
+        return ('g', ids.gene(rng), loft)
     while True:
         subs = []
         only = rng.randrange(len(node[1])) if rng.random() < P.get('chainy', 0) else None
@@ -443,7 +455,7 @@ def make_dataset(rng, T=None, naming=None, nfam=None, P=None, maxleaves=8, int_i
                  fancy=False, max_tries=200):
     P = dict(DEFAULT_P, **(P or {}))
     if T is None:
-        T = rand_tree(rng, maxleaves=maxleaves, fancy=fancy)
+        T = rand_tree(rng, maxleaves=maxleaves, fancy=fancy, cat=(0.35 if P.get('chainy', 0) > 0.3 else 0.08))
     if naming is None:
         naming = rng.choice(['own', 'synth'])
     if int_ids is None:
@@ -477,7 +489,7 @@ def make_dataset(rng, T=None, naming=None, nfam=None, P=None, maxleaves=8, int_i
     nsingle = 0
     for t in leaves:
         for _ in range(rng.choice([0, 0, 0, 1, 2])):
-            per_leaf.setdefault(t, []).append(ids.gene()); nsingle += 1
+            per_leaf.setdefault(t, []).append(ids.gene(rng)); nsingle += 1
     order = list(leaves)
     rng.shuffle(order)
     undeclared = 0
